@@ -85,6 +85,8 @@ func runCoinswap(run *ev.Run, c int, mode string) {
 	}
 	r := rig.New(rig.Options{Seed: fmt.Sprintf("cs-%d-%d", run.Seed, c), NumAccounts: 6, Balances: bal, InflationOff: true})
 	d := &csDirector{run: run, r: r, mode: mode, denoms: denoms, std: rig.BondDenom, feeCfg: "default"}
+	// one transaction in twenty is rolled back by a second message that cannot succeed, after its coinswap message ran
+	r.Poison = func() bool { return rng.Intn(20) == 0 }
 	r.Snapshot = func(ctx sdk.Context) any {
 		return &csSnap{Bal: r.AllBalances(ctx), Supply: r.Supplies(ctx), Params: r.K.Coinswap.GetParams(ctx), Pools: r.K.Coinswap.GetAllPools(ctx), Std: r.K.Coinswap.GetStandardDenom(ctx), Time: ctx.BlockTime()}
 	}
